@@ -159,4 +159,21 @@ PACKAGE_SCENARIOS: list = [
         },
         [[], ['-nc'], ['--docstyle', 'numpydoc']],
     ),
+    (
+        'layout:filtered-packages-that-reexport',
+        {
+            # packages in docs / tests directories (skipped without -tr) whose __init__ re-exports private declarations of the
+            # regular code under public aliases, and regular modules that import those packages (the type checker loads them)
+            'pk/__init__.py': '',
+            'pk/_impl.py': "def _secret(x: int = 0) -> int:\n    return x\n\n\ndef _other_secret() -> int:\n    return 1\n\n\nclass _Hidden:\n    def run(self) -> int: ...\n",
+            'pk/api.py': "from pk.docs import secret\nfrom pk.tests import checked_secret\n\n\ndef use_it(n: int = 0) -> int:\n    return secret(n) + checked_secret()\n",
+            'pk/docs/__init__.py': "from pk._impl import _secret as secret\nfrom pk._impl import _Hidden as Shown\n",
+            'pk/docs/guide.py': "def documented_example() -> None: ...\n",
+            'pk/tests/__init__.py': "from .._impl import _other_secret as checked_secret\n",
+            'pk/tests/test_api.py': "from pk.tests import checked_secret\n\n\ndef test_it() -> None:\n    assert checked_secret() == 1\n",
+            'pk/sub/__init__.py': "",
+            'pk/sub/core.py': "from pk.docs import secret as s\n\n\ndef deep_use() -> int:\n    return s(2)\n",
+        },
+        [[], ['-nc'], ['--docstyle', 'numpydoc']],
+    ),
 ]
